@@ -45,6 +45,8 @@ NONRAISING_EXT = {
     "?.encode", "?.values", "?.keys", "?.copy", "?.strip", "?.hexdigest", "dict.get",
     "dict.items", "?.extend", "?.add", "?.discard", "?.setdefault", "?.endswith", "?.join",
     "?.split", "?.format", "?.replace", "?.insert", "?.clear",
+    "?.debug", "?.info", "?.warning", "?.error", "?.exception", "?.critical", "?.log", "logging.getLogger", "logging.debug",
+    "logging.info", "logging.warning", "logging.error", "logging.exception", "logging.critical", "logging.log",
     "hashlib.md5", "hashlib.sha1", "hashlib.sha224", "hashlib.sha256", "hashlib.sha384",
     "hashlib.sha512", "hashlib.new", "binascii.hexlify", "?.hex",
 }
@@ -79,7 +81,8 @@ RAISING_EXT: Dict[str, Tuple[str, ...]] = {
     "?.pop": ("KeyError", "IndexError"),
     "?.remove": ("ValueError", "KeyError"),
     "?.decode": ("UnicodeDecodeError",),
-    "?.read": ("OSError",), "?.write": ("OSError",),
+    "?.read": ("OSError",), "?.write": ("OSError",), "?.write_bytes": ("OSError",), "?.write_text": ("OSError",),
+    "?.read_bytes": ("OSError",), "?.read_text": ("OSError",),
     "?.__getitem__": (EXC,), "?.__setitem__": (EXC,), "?.__delitem__": (EXC,),
     "os.makedirs": ("OSError",), "os.remove": ("OSError",), "os.rename": ("OSError",),
     "os.replace": ("OSError",), "os.unlink": ("OSError",), "os.stat": ("OSError",),
@@ -604,7 +607,10 @@ class Analysis:
             return True
         if t.kind == "ext":
             return t.name in ("builtins.dict", "builtins.list", "builtins.set", "builtins.OrderedDict",
-                              "collections.OrderedDict", "builtins.bytearray", "builtins.bytes")
+                              "collections.OrderedDict", "builtins.bytearray", "builtins.bytes", "copy.copy", "copy.deepcopy",
+                              "?.copy", "builtins.sorted", "builtins.tuple", "builtins.frozenset")
+        if t.kind == "builtin_method":
+            return t.name in ("list.copy", "dict.copy", "set.copy")
         if t.kind != "fn":
             return False
         fn = t.fn
